@@ -62,7 +62,10 @@ pub struct Program {
 }
 
 fn load(name: &str) -> Bytes {
-    Bytes::from(std::fs::read(format!("/repo/script/testdata/{name}")).unwrap_or_else(|e| panic!("testdata/{name}: {e}")))
+    // the repository's test programs; a few more (sources next to them) live in the harness
+    let own = format!("/verif/harness/testdata/{name}");
+    let path = if std::path::Path::new(&own).is_file() { own } else { format!("/repo/script/testdata/{name}") };
+    Bytes::from(std::fs::read(&path).unwrap_or_else(|e| panic!("{path}: {e}")))
 }
 
 fn cell_from(data: Bytes, index: u32) -> (CellMeta, Byte32) {
@@ -172,6 +175,10 @@ fn programs() -> Vec<Program> {
     for case in 1..=19u8 {
         v.push(p(&["spawn_cases"], &[case], 2));
     }
+    // harness/testdata: the root spawns a child and exits on its next turn, the child spawns four
+    // grandchildren (more VMs than stay resident): the root is swapped out while runnable and swapped
+    // back in - at the scheduler's swap charge - in the iteration in which it exits
+    v.push(p(&["spawn_grandchildren_swap_root"], &[], 2));
     v.push(p(&["spawn_caller_strcat", "spawn_callee_strcat"], &[], 2));
     v.push(p(&["spawn_caller_current_cycles", "spawn_callee_current_cycles"], &[], 2));
     v.push(p(&["spawn_caller_exec", "spawn_callee_exec_caller", "spawn_callee_exec_callee"], &[], 2));
@@ -639,7 +646,7 @@ pub fn meta(tier: Tier) -> Meta {
         id: "C05",
         level: "model_checking",
         rule: "for each (program, VM version) of the table (always_success/failure x v0-2, current_cycles, exec from cell data / witness, infinite_exec, spawn_cases 1..19, spawn strcat / current_cycles / exec / out_of_cycles, load-with-snapshot) with un-chunked cost T: (a) every first split point s in [1,T) when T-1 <= the per-program run budget (counted in the evidence), else the first and last third of the budget plus an odd stride in between, each continued by complete(inf) and by resume_from_state(inf); (b) the whole run in uniform chunks for a geometric ladder of step sizes plus a dense band of tiny steps; (c) all pairs of splits on a grid; (d) every budget in [T-d, T+d], d = 150 (quick) / 600 (thorough), through verify and through resumable_verify+complete; (e) signals: for the five programs with in-script pause points (v1, v2) the captured-state path through every pause, resumable_verify_with_signal(unlimited) and every budget in [T-d, T+d] plus T/2, 2T/3, 3T/4, 9T/10, and for every succeeding program of the table the signal path for budgets in [T-4, T+4] (40 thorough). Oracle = verify(HORIZON) of the same resolved transaction (verdict + cycles). states = programs, transitions = chunk executions; non-trivial = a split/step that actually suspended a succeeding program.",
-        assumptions: &["programs are the RISC-V binaries shipped in script/testdata", "pause signals: only the deterministic pause points (the DEBUG_PAUSE syscalls of the testdata programs written for it, installed the way the repository's tests do) are driven, each followed by Resume; pauses landing at arbitrary instructions depend on thread timing and are not enumerated", "chunks too small to execute a single step may be refused with the cycle-limit error"],
+        assumptions: &["programs are the RISC-V binaries shipped in script/testdata plus one in harness/testdata (source next to it; built with clang for riscv64)", "pause signals: only the deterministic pause points (the DEBUG_PAUSE syscalls of the testdata programs written for it, installed the way the repository's tests do) are driven, each followed by Resume; pauses landing at arbitrary instructions depend on thread timing and are not enumerated", "chunks too small to execute a single step may be refused with the cycle-limit error"],
         bounds: json!({"first_split_runs_per_program": work(tier), "horizon_cycles": HORIZON}),
     }
 }
